@@ -1,10 +1,38 @@
 (* C13 — the IDL parser accepts exactly the Varlink grammar and builds the denoted tree.
-   Only pinned statements; the model is Idl/IdlParse.v, the proofs are in Idl/*Proofs.v. *)
-From ZV Require Import Common.Base Idl.Idl Idl.IdlParse Idl.IdlExec Idl.IdlExamples.
+   Only pinned statements; the model is Idl/IdlParse.v (a transcription of
+   zlink-core/src/idl/parse/mod.rs incl. winnow's combinators), the proofs are in Idl/IdlSafe.v. *)
+From ZV Require Import Common.Base Idl.Idl Idl.IdlParse Idl.IdlParseOld Idl.IdlSafe Idl.IdlExec
+  Idl.IdlExamples.
+
+(* The parser never panics: for EVERY valid UTF-8 byte string (the argument of
+   Interface::try_from is a &str) no slice is out of range, no from_utf8(..).unwrap() fails and
+   the `separated` infinite-loop assertion is never hit. *)
+Theorem C13_no_panic : forall s, utf8_valid s = true -> parse_interface s <> OPanic.
+Proof. intros s H. exact (proj1 (parse_interface_safe s H)). Qed.
+Print Assumptions C13_no_panic.
+
+(* The UTF-8 hypothesis is needed (bytes_to_str unwraps): not reachable through the &str API. *)
+Theorem C13_no_panic_needs_utf8 : exists s, parse_interface s = OPanic.
+Proof. exists [35; 255]%N. vm_compute. reflexivity. Qed.
+Print Assumptions C13_no_panic_needs_utf8.
+
+(* Before the repair b458739 the statement was false of the code: the struct-vs-enum look-ahead
+   sliced input[1..0] at the type position of `method M(a:) -> ()` (replayed: corpus/c13.jsonl). *)
+Theorem C13_no_panic_refuted_before_fix :
+  exists i, forall vt, fst (inline_type_old vt i) = Panic.
+Proof. exists [41; 32; 45; 62; 32; 40; 41]%N. exact inline_type_old_panics. Qed.
+Print Assumptions C13_no_panic_refuted_before_fix.
+
+(* The parser never loops: every loop and every recursion of the model runs with fuel
+   |remaining input| + 1 and never exhausts it. *)
+Theorem C13_terminates : forall s, utf8_valid s = true -> parse_interface s <> OFuel.
+Proof. intros s H. exact (proj2 (parse_interface_safe s H)). Qed.
+Print Assumptions C13_terminates.
 
 (* Non-vacuity: the official org.varlink.service description is parsed by the model to the
    expected tree, its text denotes that tree in the token language, and all names are legal. *)
 Example C13_nonvacuous :
-  parse_interface org_varlink_service_text = Accept org_varlink_service
+  utf8_valid org_varlink_service_text = true
+  /\ parse_interface org_varlink_service_text = Accept org_varlink_service
   /\ sound_accept org_varlink_service_text org_varlink_service = true.
-Proof. split; vm_compute; reflexivity. Qed.
+Proof. repeat split; vm_compute; reflexivity. Qed.
